@@ -132,6 +132,17 @@ pub struct InnerState {
     pub contract_violations: Vec<String>,
     /// invoked (outside the lock) with the call index at the start of every call()
     pub on_call: Option<Arc<dyn Fn(usize) + Send + Sync>>,
+    /// When set, an instance whose readiness is first asked for after some call has already
+    /// been made (a hedge / retry clone) stays Pending until the harness releases it.
+    pub hold_late_ready: bool,
+    pub held: Vec<HeldReady>,
+}
+
+pub struct HeldReady {
+    pub instance: u32,
+    pub released: bool,
+    pub since_ms: u64,
+    waker: Option<Waker>,
 }
 
 impl InnerState {
@@ -154,6 +165,15 @@ impl InnerState {
     fn fresh_serial(&mut self) -> u32 {
         self.next_serial += 1;
         self.next_serial
+    }
+    pub fn held_unreleased(&self) -> Vec<usize> {
+        self.held.iter().enumerate().filter(|(_, h)| !h.released).map(|(i, _)| i).collect()
+    }
+    /// Let held instance #idx become ready; returns the waker to call (outside the lock).
+    pub fn release_ready(&mut self, idx: usize) -> Option<Waker> {
+        let h = &mut self.held[idx];
+        h.released = true;
+        h.waker.take()
     }
     /// Open the gate of call k; returns the waker to call (outside the lock).
     pub fn open_gate(&mut self, k: usize, out: Out) -> Option<Waker> {
@@ -182,6 +202,8 @@ pub fn new_shared(origin: tokio::time::Instant, mode: Mode) -> Shared {
         clones: Vec::new(),
         contract_violations: Vec::new(),
         on_call: None,
+        hold_late_ready: false,
+        held: Vec::new(),
     }))
 }
 
@@ -222,6 +244,26 @@ impl tower::Service<Req> for GatedInner {
 
     fn poll_ready(&mut self, cx: &mut Context<'_>) -> Poll<Result<(), InnerErr>> {
         let mut g = self.st.lock().unwrap();
+        if g.hold_late_ready {
+            let known = g.held.iter().position(|h| h.instance == self.instance);
+            let idx = match known {
+                Some(i) => Some(i),
+                None if !g.calls.is_empty() && !self.ready => {
+                    let now = g.now_ms();
+                    g.held.push(HeldReady { instance: self.instance, released: false, since_ms: now, waker: None });
+                    Some(g.held.len() - 1)
+                }
+                None => None,
+            };
+            if let Some(i) = idx {
+                if !g.held[i].released {
+                    g.held[i].waker = Some(cx.waker().clone());
+                    let now = g.now_ms();
+                    g.ready_log.push((self.instance, now, ReadyAns::Pending));
+                    return Poll::Pending;
+                }
+            }
+        }
         let ans = g.ready_script.pop_front().unwrap_or(ReadyAns::Ready);
         let now = g.now_ms();
         g.ready_log.push((self.instance, now, ans));
